@@ -223,16 +223,21 @@ class DSession:
     def query_arg(self, q, j, p, m=0, after_reject=False):
         d = self.dispatcher
         op = self._op(j, p)
+        # in every other state the arguments are passed by keyword (a memo keyed on positional arguments only
+        # would hand back the answer of the previous keyword call)
+        kw = sum(1 for e in self.events if e["a"] in ("Dispatch", "Reset")) % 2 == 1
         if q == "is_scheduled":
-            out, val = _outcome(lambda: bool(d.is_scheduled(op)))
+            out, val = _outcome(lambda: bool(d.is_scheduled(operation=op) if kw else d.is_scheduled(op)))
         elif q == "is_operation_ready":
-            out, val = _outcome(lambda: bool(d.is_operation_ready(op)))
+            out, val = _outcome(lambda: bool(d.is_operation_ready(operation=op) if kw else d.is_operation_ready(op)))
         elif q == "earliest_start_time":
-            out, val = _outcome(lambda: model.num(d.earliest_start_time(op)))
+            out, val = _outcome(lambda: model.num(d.earliest_start_time(operation=op) if kw
+                                                  else d.earliest_start_time(op)))
         elif q == "start_time":
-            out, val = _outcome(lambda: model.num(d.start_time(op, m - 1)))
+            out, val = _outcome(lambda: model.num(d.start_time(operation=op, machine_id=m - 1) if kw
+                                                  else d.start_time(op, m - 1)))
         elif q == "next_operation":
-            out, val = _outcome(lambda: model.op_ref(d.next_operation(j - 1)))
+            out, val = _outcome(lambda: model.op_ref(d.next_operation(job_id=j - 1) if kw else d.next_operation(j - 1)))
         else:
             raise ValueError(q)
         ev = {"a": "QueryArg", "q": q, "j": j, "p": p, "m": m, "out": out, "res": val if out == "ok" else 0}
@@ -348,14 +353,21 @@ class DSession:
                                      or any(x is obj for x in d.subscribers))})
         return out
 
-    def create_graph_updater(self, builder, rm_machines=True, rm_jobs=True):
+    def subscribe_builtin(self, idx):
+        """dispatcher.subscribe(obj) for a built-in observer that was constructed with subscribe=False"""
+        obj = self.extra[idx]
+        before = self._extra_ids()
+        out, _ = _outcome(lambda: self.dispatcher.subscribe(obj))
+        self._ev({"a": "SubBuiltin", "target": idx + 1, "before": before, "after": self._extra_ids(), "out": out})
+
+    def create_graph_updater(self, builder, rm_machines=True, rm_jobs=True, subscribe=True):
         from job_shop_lib.graphs.graph_updaters import ResidualGraphUpdater
         d = self.dispatcher
 
         def mk():
             g = build_graph(builder, self.instance)
             u = ResidualGraphUpdater(d, g, remove_completed_machine_nodes=rm_machines,
-                                     remove_completed_job_nodes=rm_jobs)
+                                     remove_completed_job_nodes=rm_jobs, **({} if subscribe else {"subscribe": False}))
             u._verif_builder = builder      # attribute of the harness' own, for the projection
             return u
 
@@ -364,7 +376,7 @@ class DSession:
             self.extra.append(obj)
         self._ev({"a": "CreateObs", "t": "ResidualGraphUpdater", "fts": [], "out": out, "builder": builder,
                   "rm_machines": bool(rm_machines), "rm_jobs": bool(rm_jobs),
-                  "subscribed": bool(out != "ok" or any(x is obj for x in d.subscribers))})
+                  "subscribed": bool(out != "ok" or not subscribe or any(x is obj for x in d.subscribers))})
         return out
 
     _earlier_graph = {}     # builder -> [graph object, node projection, edge projection] of the latest graph built by ANY session
@@ -587,6 +599,8 @@ def rerun_trace(tid, trace) -> dict:
             s.dispatch(ev["j"], ev["p"], ev["m"], none=bool(ev.get("none", False)))
         elif a == "UnsubBuiltin":
             s.unsubscribe_builtin(ev["target"] - 1)
+        elif a == "SubBuiltin":
+            s.subscribe_builtin(ev["target"] - 1)
         elif a == "Reset":
             s.reset()
         elif a == "Query":
